@@ -21,12 +21,16 @@ LEVEL = 'proof'
 ENVDUMP = '''\
 import json, os, sys
 import helper_sibling
+import helper_wrapped
 from os import getcwd as c_level_function          # callables implemented in C, imported by name
 from math import sqrt as another_c_level_function
+def annotated(x: int, y: "str" = "") -> float: return 0.0          # annotations are evaluated when the def runs (no __future__ import here)
+print("ANN " + json.dumps({k: repr(v) for k, v in sorted(annotated.__annotations__.items())}))
 print("ENV " + json.dumps({"argv": sys.argv, "name": __name__, "file": os.path.abspath(__file__), "path0": os.path.abspath(sys.path[0]),
                            "cwd": os.getcwd(), "sibling": os.path.abspath(helper_sibling.__file__)}))
 with open(os.path.join(os.environ["C07_LOG_DIR"], "order.log"), "a") as fh:
     fh.write("prog\\n")
+print("wrapped helper", helper_wrapped.twice(4))
 print("program output line 1")
 print("program output line 2")
 '''
@@ -39,9 +43,30 @@ CLOSING = ('Wrote profile results to ', 'Inspect results with:', '/venv/bin/pyth
            'Function: ', 'Line #', '=====', '   ', '')
 
 
+WRAPPED = '''\
+import functools
+def logged(fn):
+    @functools.wraps(fn)
+    def inner(*args):
+        return fn(*args)
+    return inner
+@logged
+def twice(x):
+    return 2 * x
+'''
+WRAPPED_WARNING = 'UserWarning: Adding a function with a __wrapped__ attribute'
+
+
+def only_wrapped_warning(err):
+    """classifier of F-C07g: standard error holds nothing but add_function's warning about a function with `__wrapped__` (message line + the
+    source line the warnings module echoes)"""
+    lines = [l for l in err.splitlines() if l.strip()]
+    return bool(lines) and all(WRAPPED_WARNING in l or l.strip().startswith('self.add_function(') for l in lines) and any(WRAPPED_WARNING in l for l in lines)
+
+
 def layout(d):
     """files: a script with a sibling in the top directory, in a sub-directory, in a bin directory on PATH, a module and a package"""
-    files = {'top.py': ENVDUMP, 'helper_sibling.py': 'X = 1\n', 'sub/inner.py': ENVDUMP, 'sub/helper_sibling.py': 'X = 2\n',
+    files = {'top.py': ENVDUMP, 'helper_sibling.py': 'X = 1\n', 'helper_wrapped.py': WRAPPED, 'sub/helper_wrapped.py': WRAPPED, 'bin/helper_wrapped.py': WRAPPED, 'sub/inner.py': ENVDUMP, 'sub/helper_sibling.py': 'X = 2\n',
              'bin/onpath.py': ENVDUMP, 'bin/helper_sibling.py': 'X = 3\n', 'modx.py': ENVDUMP,
              'pkgm/__init__.py': '', 'pkgm/__main__.py': ENVDUMP.replace('import helper_sibling', 'import helper_sibling'),
              'pkgm/leaf.py': ENVDUMP, 'setup_file.py': SETUP, 'sub/setup_in_sub.py': SETUP,
@@ -67,7 +92,7 @@ TARGETS = [
 OPTSETS = [[], ['-l'], ['-b'], ['-l', '-b'], ['-l', '-v'], ['-l', '-z', '-u', '1e-3'], ['-l', '-i', '5'], ['-b', '-i', '5'], ['-i', '3'],
            ['-l', '-o', 'custom.out'], ['-l', '-s', 'setup_file.py'], ['-s', 'setup_file.py'], ['-l', '-p', 'helper_sibling'],
            ['-l', '-p', 'helper_sibling', '--prof-imports'], ['-l', '-r'], ['-l', '-s', 'sub/setup_in_sub.py', '-i', '2'],
-           ['-l', '-p', '{SELF}', '--prof-imports'], ['-l', '-p', '{SELF}']]          # the program itself selected for auto-profiling
+           ['-l', '-p', '{SELF}', '--prof-imports'], ['-l', '-p', '{SELF}'], ['-l', '-p', 'helper_wrapped']]          # the program itself selected for auto-profiling
 PROG_ARGS = [[], ['a', '-l', '--view'], ['x', '--', '-m', 'y']]
 
 
@@ -149,7 +174,10 @@ def compare(target, opts, pargs, r):
         if not rest or not rest[0].startswith('Wrote profile results to '):
             viol.append({'unexpected_after_program_output': rest[:3]})
     if r['kp']['err'].strip():
-        viol.append({'stderr_not_empty': r['kp']['err'][-400:]})
+        if only_wrapped_warning(r['kp']['err']) and '-p' in opts:
+            known.append({'stderr_wrapped_warning': r['kp']['err'][-300:]})
+        else:
+            viol.append({'stderr_not_empty': r['kp']['err'][-400:]})
     if r['kp']['t'] > r['py']['t'] + 1.5:
         viol.append({'exit_latency_s': round(r['kp']['t'], 2), 'python_s': round(r['py']['t'], 2)})
     if '-s' in opts:
@@ -284,8 +312,11 @@ def run(ctx):
         for v in viol[:2]:
             ctx.fail('the program does not see / produce under kernprof what it does under python', {'finding_class': None, 'target': t[0], 'kernprof_options': o,
                                                                                                  'program_args': p, 'difference': v})
-        for k in known[:1]:
-            ctx.fail('-m: sys.argv[0] is the module name', {'finding_class': 'F-C07b', 'target': t[0], 'difference': k})
+        for k in known:
+            if 'stderr_wrapped_warning' in k:
+                ctx.fail('-p: a warning on standard error for a selected function that has __wrapped__', {'finding_class': 'F-C07g', 'target': t[0], 'kernprof_options': o, 'difference': k})
+            else:
+                ctx.fail('-m: sys.argv[0] is the module name', {'finding_class': 'F-C07b', 'target': t[0], 'difference': k})
         dist[t[0]] = dist.get(t[0], 0) + 1
         if o or p:
             nontrivial.add(json.dumps([t[0], o, p]))
